@@ -8,6 +8,7 @@ CONSTANTS
   Variant = "pinned"
   EmitOps = TRUE
   AllowNTL = TRUE
+  TwoWrites = TRUE
 INVARIANT StateInv
 PROPERTY Refines
 ACTION_CONSTRAINT Emit
